@@ -34,6 +34,7 @@ def run(ctx):
                    "and then advances the cursor; AutoCommit::diff_inner returns cached patches, the incremental log or the current-state walk only behind the equality tests that make them the answer, and caches under the key of this call.")
     ctx.not_decided = "that DiffIter::log / make_patches compute the patches between two clocks correctly (conflict flags, counters, text content)."
     ctx.rule("D1", "positional provenance: before -> first, after -> second operand of ClockRange::Diff and of every clock_range call; PatchLog.heads := after; diff_incremental: diff(cursor, heads) then update_diff_cursor")
+    ctx.rule("D3", "sibling agreement of MapDiff::next and ListDiff::next: the remembered lower-id value (last_visible) is returned for a key / element only on the true edge of `diff.is_del()` of the element's final op")
     ctx.rule("D2", "edge dominance of the three fast paths of AutoCommit::diff_inner by their guards; the cache key stored is this call's")
     f = ctx.facts()
     # ---------------- D1: clock_range itself
@@ -179,3 +180,37 @@ def run(ctx):
         hps = heads_params(d)
         ok = all(pv.depends_on_param(h) for h in hps) and "make_patches" in cs
         ctx.ob("D2", k, ok, st["sp"], "keyed by this call's before / after heads; holds the patches just made" if ok else "the diff cache is filled under a key that is not this call's range")
+    check_diff_siblings(ctx, f)
+
+
+def check_diff_siblings(ctx, f):
+    """a conflicted register's diff: the final (highest-id) op decides; an earlier visible value is the answer only when the final op was deleted"""
+    n = 0
+    for name in ("automerge::iter::map_range::MapDiff", "automerge::iter::list_range::ListDiff"):
+        cand = [p for p in f.fns if p.startswith("<%s<" % name) and p.endswith(" as core::iter::traits::iterator::Iterator>::next")]
+        if len(cand) != 1:
+            raise facts.AnchorMissing(name + "::next")
+        b = cfg.body(f.fns[cand[0]])
+        ctx.analysed_fns.add(cand[0])
+        del_true = cfg.cond_edges(b, atom_call=lambda t: (callee(t) or "").endswith("iter::tools::Diff::is_del") or (norm_fn(t.get("fn")) or "").endswith("Diff::is_del"))
+        # the stand-in: an Option<Item> local that is taken / matched and whose payload is returned
+        takes = [(bi, t) for bi, t in b.calls() if (norm_fn(t.get("fn")) or "").endswith("Option::<T>::take") or (norm_fn(t.get("fn")) or "").endswith("Option::take")]
+        item_ty = b.local_ty(0)
+        rets = []
+        for bi, blk in enumerate(b.blocks):
+            if blk.get("cleanup"):
+                continue
+            for st in blk["st"]:
+                if st["d"]["l"] == 0 and not st["d"]["p"] and st["rv"]["k"] == "Agg" and st["rv"].get("variant") == "Some":
+                    pv = b.provenance(st["rv"]["o"][0], through_calls=False)
+                    # does the returned item come out of an Option<Item> local (the stand-in) rather than from diff_item(..)?
+                    from_call = any((norm_fn(c) or "").endswith("::diff_item") for c in pv.callees())
+                    from_opt = any("@Some" in "".join(pr) for _, pr in pv.places) or any((norm_fn(c) or "").endswith("::take") for c in pv.callees())
+                    if from_opt and not from_call:
+                        rets.append((bi, st))
+        for k, (bi, st) in util.ordinal_keys(rets, lambda it: "%s::next|stand-in returned" % name.split("::")[-1]):
+            n += 1
+            ok = bool(del_true) and b.edges_dominate(del_true, bi)
+            ctx.ob("D3", k, ok, st["sp"], "only when the final op of the register is deleted" if ok else
+                   "the remembered lower-id value is returned although the register's final op may still be visible: the diff reports a losing value as the new value")
+    ctx.floor("returns of the remembered value in MapDiff / ListDiff", n, 2)
